@@ -5,7 +5,7 @@ import ast
 from typing import Dict, List, Optional, Tuple
 
 from .. import gf2
-from ..astutil import Inliner, attr_chain, call_name, const_value, match, returns_of, stmts_of
+from ..astutil import Inliner, attr_chain, call_name, const_value, match, returns_of, stmts_of, statement_texts
 from ..closedform import classify
 from ..constfold import Folder, Unfoldable
 from ..core import OK, UNDECIDED, VIOLATION, AnalysisError, ClassInfo, FuncInfo, Repo, Report, unparse
@@ -401,7 +401,7 @@ def rule_hamming_columns(repo: Repo, rep: Report) -> int:
 def rule_cyclic_layout(repo: Repo, rep: Report) -> int:
     n = 0
     gi = repo.func(CYC, "CyclicCodeEncoder._generate_systematic_matrix")
-    body = [unparse(s) for s in stmts_of(gi.body)]
+    body = statement_texts(gi)
     forms = [
         "shifted_poly = self._custom_pow(X, m + i)",
         "remainder_poly = shifted_poly % self._generator_poly",
